@@ -4,6 +4,7 @@ mod corrupt;
 mod exec;
 mod harness;
 mod jumbf;
+mod media;
 mod ops;
 mod props;
 mod report;
@@ -40,6 +41,17 @@ fn main() {
     };
     let cmd = args[1].as_str();
     let id = args[2].as_str();
+    if cmd == "svgprobe" {
+        let f = assets::Fmt::from_name(id).expect("fmt");
+        let mut r = rng::Rng::new(3);
+        let a = assets::generate(f, &mut r);
+        let st = props::embed::make_store(60, 1);
+        let w = c2pa::jumbf_io::save_jumbf_to_memory(f.mime(), &a, &st).unwrap();
+        let mut o = std::io::Cursor::new(Vec::new());
+        c2pa::verif::remove_jumbf_from_stream(f.mime(), &mut std::io::Cursor::new(w.clone()), &mut o).unwrap();
+        println!("--- original\n{}\n--- written\n{}\n--- removed\n{}", String::from_utf8_lossy(&a), String::from_utf8_lossy(&w), String::from_utf8_lossy(o.get_ref()));
+        return;
+    }
     if cmd == "dump-ing" {
         let f = assets::Fmt::from_name(id).expect("fmt");
         let ctx = std::sync::Arc::new(sdk::make_context(&serde_json::json!({})));
